@@ -407,20 +407,175 @@ _MASK_TEXT = ('a contents mask is a subset of {conf (actor = source % X-interp, 
               'cleanup}; each phase holds one process-starting line')
 
 
+def _masks_text(ms) -> str:
+    if ms == 'free':
+        return 'every mask'
+    if isinstance(ms, int):
+        ms = (ms,)
+    names = ('conf', 'setup', 'act', 'before-assert', 'assert', 'cleanup')
+
+    def one(m):
+        if m == 0:
+            return 'nothing'
+        if m == 63:
+            return 'every phase'
+        return '+'.join(n for i, n in enumerate(names) if m & (1 << i))
+
+    return ' / '.join(one(m) for m in ms)
+
+
 def _k3_obligations(tier: str) -> List[Ob]:
     obs = []
     T = 1500
+    singles = (1, 2, 4, 8, 16, 32)
+
+    def add(name, layout, **case):
+        pp = case.get('pp', 'free')
+        bound = '%s; contents of the suite S: %s (preprocessor: %s); of the case: %s' % (
+            _LAYOUT_TEXT[layout], _masks_text(case['s']),
+            {'conf-bit': 'set iff S has [conf] contents', 'free': 'set / not set', True: 'set', False: 'not set'}[pp],
+            _masks_text(case['c']))
+        if layout in ('both', 'sub'):
+            bound += '; of the other suite B: %s (preprocessor: %s)' % (
+                _masks_text(case.get('b', 0)), {'free': 'set / not set', True: 'set', False: 'not set'}[case.get('bpp', False)])
+        if case.get('suite_as_dir'):
+            bound += '; the suite is given as the directory `top`'
+        obs.append(_k3_ob(name, layout, bound + '; ' + _MASK_TEXT, case.pop('timeout', T), **case))
+
     if tier == 'quick':
-        obs.append(_k3_ob('beside:suite-subsets', 'beside',
-                          _LAYOUT_TEXT['beside'] + '; every contents mask of the suite (preprocessor set iff it has [conf] '
-                                                   'contents) x the case holds contents in every phase; ' + _MASK_TEXT,
-                          T, s='free', c=63, pp='conf-bit'))
-    obs.append(_k3_ob('probe8', 'beside', 'probe', T, s=(0, 9, 18, 27, 36, 45, 54, 63), c=63, pp='conf-bit'))
+        add('beside:suite-single-phase', 'beside', s=(0,) + singles + (63,), c=63, pp='conf-bit')
+        add('beside:case-single-phase', 'beside', s=63, c=(0,) + singles, pp=True)
+        add('named', 'named', s=63, c=(21, 63), pp='free')
+        add('both', 'both', s=63, pp=True, c=63, b=(21, 42), bpp='free', timeout=2000)
+        add('sub', 'sub', s=63, pp=True, c=63, b=(0, 63), bpp='free', timeout=2000)
+        add('beside:dir-arg', 'beside', s=63, pp=True, c=42, suite_as_dir=True)
+    else:
+        for lo in range(0, 64, 16):
+            rng = tuple(range(lo, lo + 16))
+            add('beside:suite-subsets:%d-%d' % (lo, lo + 15), 'beside', s=rng, c=63, pp='conf-bit', timeout=3000)
+            add('beside:suite-subsets:%d-%d:empty-case' % (lo, lo + 15), 'beside', s=rng, c=0, pp='conf-bit', timeout=3000)
+            add('beside:case-subsets:%d-%d' % (lo, lo + 15), 'beside', s=63, c=rng, pp=True, timeout=3000)
+            add('beside:case-subsets:%d-%d:suite-pp-only' % (lo, lo + 15), 'beside', s=0, c=rng, pp=True, timeout=3000)
+        for m in (21, 42):
+            for lo in range(0, 64, 16):
+                add('beside:suite-subsets:%d-%d:case-%d' % (lo, lo + 15, m), 'beside', s=tuple(range(lo, lo + 16)), c=m,
+                    pp='conf-bit', timeout=3000)
+        for sm in (0, 21, 42, 63):
+            add('named:s%d' % sm, 'named', s=sm, c=(0, 21, 42, 63), pp='free', timeout=3000)
+        for sm in (21, 42, 63):
+            add('both:s%d' % sm, 'both', s=sm, pp='free', c=63, b=(0, 21, 42, 63), bpp='free', timeout=3000)
+            add('sub:s%d' % sm, 'sub', s=sm, pp='free', c=63, b=(0, 21, 42, 63), bpp='free', timeout=3000)
+        add('sub:s0', 'sub', s=0, pp=True, c=(21, 63), b=(0, 21, 42, 63), bpp='free', timeout=3000)
+        add('beside:dir-arg', 'beside', s=(0, 21, 42, 63), pp='free', c=42, suite_as_dir=True, timeout=3000)
+        add('sub:dir-arg', 'sub', s=63, pp=True, c=21, b=(0, 42), bpp='free', suite_as_dir=True, timeout=3000)
     obs.append(_k3_ob('seeded-oracle-error', 'beside', 'seeded oracle error: suite contents expected after the case\'s in setup',
                       600, s=(2, 3), c=63, pp=False, oracle_bug=True))
     obs[-1].expect = ob.REFUTE
     return obs
 
 
+# --------------------------------------------------------------------------- K4
+
+REAL_K4 = (
+    'exactly_lib.cli.main_program.MainProgram.execute_test_suite',
+    'exactly_lib.test_suite.processing.SuitesExecutor._process_single_sub_suite',
+    'exactly_lib.test_suite.processing._process_and_time',
+    'exactly_lib.processing.processors.new_processor_that_should_not_pollute_current_process',
+    'exactly_lib.processing.processors._Executor.apply',
+    'exactly_lib.processing.processors._Executor._exe_conf_that_may_be_updated',
+    'exactly_lib.execution.partial_execution.execution.execute',
+    'exactly_lib.execution.partial_execution.impl.executor._PartialExecutor.__init__',
+    'exactly_lib.execution.partial_execution.impl.executor._PartialExecutor._setup_post_sds_environment',
+    'exactly_lib.execution.partial_execution.impl.executor._PartialExecutor._post_sds_environment',
+    'exactly_lib.util.file_utils.misc_utils.preserved_cwd',
+    'exactly_lib.impls.instructions.multi_phase.environ.impl',
+    'exactly_lib.impls.instructions.multi_phase.change_dir',
+    'exactly_lib.impls.instructions.multi_phase.timeout.parse',
+    'exactly_lib.impls.instructions.multi_phase.define_symbol.parser',
+    'exactly_lib.impls.instructions.multi_phase.new_file',
+    'exactly_lib.impls.instructions.multi_phase.sys_cmd',
+    'exactly_lib.impls.instructions.multi_phase.timeout.impl',
+    'exactly_lib.impls.instructions.multi_phase.new_dir',
+    'exactly_lib.impls.instructions.setup.stdin',
+    'exactly_lib.impls.instructions.configuration.actor',
+)
+
+
+def _pre_k4(a: int, b: int, c: int) -> bool:
+    cs = ob.case()
+    pos = cs['positions']
+    vals = (a, b, c)
+    for i in range(3):
+        if i < len(pos):
+            if not _in(vals[i], pos[i]):
+                return False
+        elif vals[i] != 0:
+            return False
+    return True
+
+
+def _in(v, allowed) -> bool:
+    for x in allowed:
+        if v == x:
+            return True
+    return False
+
+
+def k4_history(a: int, b: int, c: int) -> bool:
+    """
+    pre: _pre_k4(a, b, c)
+    post: _
+    """
+    cs = ob.case()
+    n = len(cs['positions'])
+    kinds = [L.HISTORY_KINDS[ob.concrete_int(v, 0, len(L.HISTORY_KINDS) - 1)] for v in (a, b, c)[:n]]
+    obs = L.history_observe(kinds, bool(cs.get('oracle_bug')))
+    return ob.post(L.history_ok(kinds, obs))
+
+
+def _kind_idx(*names):
+    return tuple(L.HISTORY_KINDS.index(n) for n in names)
+
+
+def _k4_ob(name, positions, bound, timeout, **case):
+    c = dict(positions=positions)
+    c.update(case)
+    return Ob(name='K4:' + name, fn='k4_history', case=c, kernel='K4', timeout=timeout, selector=True, bound=bound,
+              real=REAL_K4, stubs=(STUB_SUBPROCESS, STUB_CLI_ENV),
+              outside=('cases other than the %d of the catalogue %s' % (len(L.HISTORY_KINDS), list(L.HISTORY_KINDS)),
+                       'what the child processes themselves would do (nothing is started)'),
+              entry="MainProgram.execute(['suite', SUITE]) vs MainProgram.execute(['--suite', SUITE, CASE]) per case")
+
+
+def _k4_obligations(tier: str) -> List[Ob]:
+    obs = []
+    allk = tuple(range(len(L.HISTORY_KINDS)))
+    what = ('every case of a suite run must be observed (identifier; argv, cwd, environment, timeout, sandbox listing, stdin '
+            'of every process it starts) exactly as when it is run alone with `--suite`; its first instruction sees the '
+            'pristine state')
+    if tier == 'quick':
+        half = len(allk) // 2
+        for h, ks in enumerate((allk[:half], allk[half:])):
+            obs.append(_k4_ob('then-observers:%d' % h, (ks, _kind_idx('observer'), _kind_idx('reference-to-undefined-symbol')),
+                              'suite of 3 cases: one of %s, then `observer`, then `reference-to-undefined-symbol`; %s' % (
+                                  [L.HISTORY_KINDS[k] for k in ks], what), 900))
+    else:
+        for k in allk:
+            obs.append(_k4_ob('pairs:%s' % L.HISTORY_KINDS[k], ((k,), allk),
+                              'suite of 2 cases: `%s`, then each case of the catalogue; %s' % (L.HISTORY_KINDS[k], what), 1500))
+        for k in _kind_idx('env', 'cd', 'timeout', 'def', 'files', 'conf', 'hard-error-after-changes'):
+            obs.append(_k4_ob('triples:%s' % L.HISTORY_KINDS[k],
+                              ((k,), _kind_idx('env-late', 'cd-late', 'timeout-none-late', 'def-late', 'env-of-act+stdin',
+                                               'fail-after-changes'),
+                               _kind_idx('observer', 'reference-to-undefined-symbol')),
+                              'suite of 3 cases: `%s`, then one of the late-changing cases, then an observer; %s' % (
+                                  L.HISTORY_KINDS[k], what), 1500))
+    obs.append(_k4_ob('seeded-oracle-error', (_kind_idx('timeout'), _kind_idx('observer')),
+                      'seeded oracle error: the observer is expected to see the timeout set by the case before it', 600,
+                      oracle_bug=True))
+    obs[-1].expect = ob.REFUTE
+    return obs
+
+
 def obligations(tier: str) -> List[Ob]:
-    return _k1_obligations(tier) + _k2_obligations(tier) + _k3_obligations(tier)
+    return _k1_obligations(tier) + _k2_obligations(tier) + _k3_obligations(tier) + _k4_obligations(tier)
